@@ -12,8 +12,12 @@ MODE_COLS = ["mode", "is_file", "is_dir", "is_symlink", "is_pipe", "is_char", "i
              "other_read", "other_write", "other_exec", "other_all", "suid", "sgid"]
 
 COQ_HEADER = """From Coq Require Import List NArith Bool.
-From FS Require Import lib.Str spec.ModeSpec gen.ModeGen proofs.C04_mode.
+From FS Require Import lib.Str spec.ModeSpec gen.ModeGen.
 Import ListNotations. Open Scope N_scope.
+(* only gen/ and spec/ are imported: the model must still run when a proof about it no longer compiles *)
+Definition ftype (m : N) := N.land m 61440.
+Definition type_flags (m : N) : list bool :=
+  [ftype m =? 32768; ftype m =? 16384; ftype m =? 40960; mode_is_pipe m; mode_is_char_device m; mode_is_block_device m; mode_is_socket m].
 Definition row (m : N) := (get_mode_unix m, type_flags m,
   [mode_user_read m; mode_user_write m; mode_user_exec m; mode_user_all m;
    mode_group_read m; mode_group_write m; mode_group_exec m; mode_group_all m;
